@@ -216,6 +216,9 @@ func (rt *Transfer) recvGenerator(idx int, f *File) error {
 		if rt.Opts.DebugGTE(rsyncopts.DEBUG_GENR, 1) {
 			rt.Logger.Printf("symlink %s -> %s", f.Name, f.LinkTarget)
 		}
+		if rt.Opts.DryRun {
+			return nil
+		}
 		if err := symlink(rt.DestRoot, f.LinkTarget, f.Name); err != nil {
 			return err
 		}
@@ -229,6 +232,9 @@ func (rt *Transfer) recvGenerator(idx int, f *File) error {
 		mode == rsync.S_IFBLK ||
 		mode == rsync.S_IFSOCK ||
 		mode == rsync.S_IFIFO) {
+		if rt.Opts.DryRun {
+			return nil
+		}
 		if err := rt.createDevice(f, st); err != nil {
 			return err
 		}
@@ -272,6 +278,9 @@ func (rt *Transfer) recvGenerator(idx int, f *File) error {
 	if !st.Mode().IsRegular() {
 		// A non-regular file with this name exists. Delete it so that we can
 		// create our file instead.
+		if rt.Opts.DryRun {
+			return requestFullFile()
+		}
 		if err := rt.DestRoot.Remove(f.Name); err != nil {
 			return fmt.Errorf("unlinking to make room for regular file: %v", err)
 		}
